@@ -5,11 +5,11 @@ import ast
 
 from typing import Dict, List, Optional, Tuple
 
-from .. import consteval, decoders, render, sym
+from .. import consteval, decoders, normal, render, sym
 from ..model import AnalysisError, ClassInfo, Repo
 from ..oracles import darwin
 from ..report import Run
-from ..sym import T, const
+from ..sym import T, const, param
 
 EXPLANATION = (
     "R1: every enum member of the decoder modules whose name is in the Darwin reference table has the reference value. "
@@ -403,7 +403,40 @@ def check(repo: Repo, run: Run) -> None:
                     if ok:
                         shown_bits |= val
                         shown_members.add(name)
-        # the zero member / members mentioned as constants elsewhere in the function (else branches) count as handled
+        # the zero member (X_NONE = 0) has no bit of its own: a function that names it explicitly may show it exactly when
+        # the word is zero - not whenever "no declared name matched", which also holds for words made of undeclared bits
+        zero_names = [nm_ for nm_, v_ in ci.members if isinstance(v_, int) and not isinstance(v_, bool) and v_ == 0]
+        if fnode is not None and zero_names and len(fnode.args.args) == 1:
+            word = param(fnode.args.args[0].arg)
+            for r_ in frec.returns:
+                if r_.kind != "return" or r_.value is None:
+                    continue
+                for pc_, leaf in normal.guarded_leaves(normal.value_bool_to_ite(r_.value)):
+                    zs = [z for z in zero_names if leaf in (T("list", ((T("enum", (ci.qualname, z)),),)),
+                                                              T("tuple", ((T("enum", (ci.qualname, z)),),)),
+                                                              T("enum", (ci.qualname, z)))]
+                    if not zs:
+                        continue
+                    conds = [(c_, p_) for c_, p_ in tuple(r_.pc) + tuple(pc_)]
+                    zero_tests = 0
+                    other = []
+                    for c_, p_ in conds:
+                        atom, pol = render.norm_bool(c_)
+                        eff = p_ if pol else not p_
+                        if atom == word and not eff:
+                            zero_tests += 1                               # `not word`
+                        elif atom.op == "cmp" and {atom.a[1], atom.a[2]} == {word, const(0)} and \
+                                ((atom.a[0] == "==" and eff) or (atom.a[0] == "!=" and not eff)):
+                            zero_tests += 1                               # `word == 0`
+                        else:
+                            other.append(sym.pretty(c_ if p_ else T("not", (c_,)))[:70])
+                    ok = zero_tests >= 1
+                    run.ob("R8", mod, scope, f"{ci.name}.{zs[0]}: shown exactly when the word is zero", ok,
+                           "" if ok else
+                           f"{ci.name}.{zs[0]} (value 0) is returned when {' and '.join(other) or 'always'}, which is not `word == 0`: a "
+                           f"non-zero word none of whose bits has a declared name is shown as {zs[0]}",
+                           facts={"conditions": other}, line=fnode.lineno,
+                           witness="a word with only an undeclared bit set, e.g. the highest bit")
         # coverage of the whole family
         for name, val in ci.members:
             if not isinstance(val, int) or val == 0 or name in shown_members:
